@@ -24,7 +24,9 @@ RULE = ("model tie: the extracted Coq models of HasherHybrid (padding on/off) an
         "that every creator accepts) and with the public assemble() called again before write(); on a copy of the payload the "
         "creators are constructed, one file grows / shrinks / is added / is removed, assemble() is called again and the metafile "
         "is judged against the copy as it is then; the command line (a third of the trees and single files) also with --align and "
-        "with `align = true` in a configuration file.  A case is non-trivial when it is distinct and hits at least one boundary class.")
+        "with `align = true` in a configuration file.  A quarter of the directories contain symbolic links to files of the payload "
+        "(to a sibling, into a sub-directory, from a sub-directory upwards, now and then to another link): the creators follow them, "
+        "so both views must list a file named like the LINK with the target's length and bytes.  A case is non-trivial when it is distinct and hits at least one boundary class.")
 RULE += ("  Unit correspondence of Model/Creators.v (the creator-level theorems rest on it): TorrentFileHybrid and "
          "TorrentAssembler (meta version 3), both on every tree, write a metafile for "
          "generated content trees (single file / flat / nested to depth 3 / a directory next to a sibling whose name sorts between "
